@@ -176,7 +176,7 @@ def changes(c, rng):
         out.append(('add-dependent-module', c[:4] + [me + [modent(path('zz_dep'), dep)]] + c[5:], own))
     # 1e. a new module at an ANCESTOR path of the observed (nested) module, defining types named like the ones the observed
     #     module defines and mentions: enclosing modules are not in scope unless imported
-    if len(own) >= 2:
+    if len(own) >= 2 and find(c, 'witness-module-path-becomes-type') is None:
         for cut in range(1, len(own)):
             anc = tuple(own[:cut])
             if anc not in modmap and anc not in imported:
@@ -185,6 +185,12 @@ def changes(c, rng):
                 if adefs:
                     out.append(('add-ancestor-module', c[:4] + [me + [modent(path(*anc), module(defs=adefs))]] + c[5:], own))
                 break
+    # 1f. (witness of the open finding, proved in Lean as C19.Refute.added_module_registry_weak_refuted) the parent module of a
+    #     nested module a::b is added and defines a type named `b`: the old module's own path a::b becomes a TYPE path, and since
+    #     a module's own path is a member of its scope the name `b` inside it now denotes the new type
+    if find(c, 'witness-module-path-becomes-type') is not None and len(own) >= 2 and tuple(own[:-1]) not in modmap:
+        out.append(('module-path-becomes-type-path', c[:4] + [me + [modent(path(*own[:-1]), module(defs=[
+            type_def(True, own[-1], [], [field(True, 'x', ty_id('u64')), field(True, 'y', ty_id('u64'))])]))]] + c[5:], own))
     # per-module edits
     for idx, ent in enumerate(me[1:]):
         if tag(ent) != 'module': continue
